@@ -249,6 +249,15 @@ def run(tier):
         out.sample({k: t[k] for k in t if k != 'tid'})
     verdicts = validate_traces('Interp_Trace', traces, out, shard=1500)
     settle(out, traces, verdicts, None)
+    # interpDimension as an operation of the PncCore machine: programs over
+    # the core templates (every variable that has the dimension, coordinate
+    # variable included, after other operations) validated by PncCore_Trace
+    # against PncInterp.tla
+    import core_driver as cd
+    progs = [cd.gen_program(rnd, rnd.choice([1, 2, 3]), focus='interp',
+                            templates=['T1', 'T3', 'T5', 'T7'])
+             for _ in range(150 if tier == 'quick' else 1500)]
+    cd.run_programs(out, progs, {'val'}, 'C17-core', prop='C17')
     out.assumptions = [
         'integer coordinates (sigma edges in 1/8 units, exact in float32): the exact weights '
         'are small rationals and the float results identify them to 1e-9',
